@@ -49,7 +49,7 @@ hyp("C10", "eng_proto", 450, 3000,
     "histories with id reuse, duplicate announcements, D/T at every stage; in-use counter compared with the model after "
     "every step, LeakSanitizer at exit; non-trivial = a live id was replaced and instances ended in >=3 different ways",
     PROTO_ASSUME)
-hyp("C04", "eng_proto2", 220, 2000,
+hyp("C04", "eng_proto2", 500, 4000,
     "a generated history H and the same history with one stray reply/unlinked line inserted at a generated position (stale or future "
     "serial of the same id, unparsable tag, unknown / case-variant / not-awaiting service; every reply kind) are both run; outputs "
     "must be identical step for step and the stray step silent.  A line that the routing rule says is NOT stray is reclassified and "
@@ -78,6 +78,13 @@ hyp("C08", "eng_proto3", 300, 2500,
     "parameters, unroutable replies, blank lines): output equal to the junk-free run modulo '> :ircd sent garbage' notices.  "
     "non-trivial = every case (each contains hostile or junk lines next to live client traffic); distinct by case hash",
     PROTO_ASSUME + ["batch mode: no barrier lines; LeakSanitizer off here (leaks are judged by C10)"])
+hyp("C17", "eng_proto3", 180, 1500,
+    "(old, new) service and rule tables related by 1-3 generated edits (add / remove / protocol changed in place / rule added, removed, "
+    "field changed in place, criterion added or removed / no-op; several edits = several reloads, which gives remove-then-add); daemon "
+    "A starts on old, optionally serves clients that leave queries outstanding, is reloaded with SIGUSR1 (completion observed through "
+    "inotify + barrier) and then serves probe clients that touch every service and rule; daemon B starts fresh on new and serves the "
+    "same probes; per-step outputs (serials masked, unconfigured '-' entries ignored, order of lines within a step ignored) and the "
+    "'-1 ? config' report must be equal.  non-trivial = at least one real edit and probe output observed", PROTO_ASSUME)
 CONF_ASSUME = COMMON_ASSUME + ["src/config.c, set.c, common.c, bitset.c linked unmodified into harness/confh.c; log_message is a capturing stub",
                               "LeakSanitizer off: parse-error paths leak the token being parsed (observation, not a memory error)"]
 hyp("C14", "eng_conf", 500, 5000,
